@@ -117,6 +117,8 @@ void cmb_resourceguard_terminate(struct cmb_resourceguard *rgp)
     cmi_hashheap_terminate((struct cmi_hashheap *)rgp);
 }
 
+static void wakeup_event_resource(void *vp, void *arg);
+
 /*
  * cmb_resourceguard_wait - Enqueue and suspend the calling process until it
  * reaches the front of the priority queue and its demand function returns true.
@@ -156,7 +158,19 @@ int64_t cmb_resourceguard_wait(struct cmb_resourceguard *rgp,
 
     /* Back here, possibly much later. Return the signal that resumed us. */
     if (sig != CMB_PROCESS_SUCCESS) {
-        cmi_hashheap_cancel((struct cmi_hashheap *)rgp, key);
+        if (!cmi_hashheap_cancel((struct cmi_hashheap *)rgp, key)) {
+            /*
+             * Not in the queue any more: we had been selected already when
+             * something else resumed us. Cancel the wakeup call if it still is
+             * on its way, and offer what we were selected for to the next in
+             * line. (Nothing to pass on for an observer like a condition.)
+             */
+            (void)cmb_event_pattern_cancel(wakeup_event_resource, pp,
+                                           CMB_ANY_OBJECT);
+            if (rgp->forward == NULL) {
+                (void)cmb_resourceguard_signal(rgp);
+            }
+        }
     }
 
     cmb_assert_debug(!cmi_hashheap_is_enqueued((struct cmi_hashheap *)rgp, key));
